@@ -194,7 +194,7 @@ func c13NearMisses() []c13Input {
 		"switch {\ncase\n}\n", "switch {\ncase 1\n}\n", "switch x {\n", "case 1:\n", "default:\n", "return\n", "return 1\n", "break\n", "continue\n", "print(\n", "print(1,)\n", "print)\n", "len()\n", "x := len\n",
 		"import\n", "import x\n", "import \"\"\n", "import (\n", "import (\n)\n", "import ()\n", "import x \"a.tsh\" y\n", "@\n", "@ls\n", "@ls(\n", "@ls() |\n", "@ls() | x\n", "x := @\n", "@\"\"()\n", "a.b()\n", "a.()\n", "a.b.c()\n", ".\n",
 		"x := []int{\n", "x := []int{1,\n", "x := []{}\n", "x := [1]int{}\n", "x := []int{1}[0]\n", "x := \"abc\"[0]\n", "s := \"a\"\nx := s[\n", "s := \"a\"\nx := s[:]\n", "s := \"a\"\nx := s[::]\n", "s := \"a\"\nx := s[1:2:3]\n",
-		"x := 1\nx[0] = 1\n", "x := 1\nx()\n", "print(print(1))\n", "x := print(1)\n", "func f() {\n\tfunc g() {\n\t}\n}\n", "func f() {\n}\nf = 1\n", "f()\nfunc f() {\n}\n", "\x00", "\xff\xfe", "\"", "`", "/*", "//", "'", "\\",
+		"x := 1\nswitch x {\ncase 1:\n\tbreak\n}\n", "switch {\ndefault:\n\tif true {\n\t\tbreak\n\t}\n}\n", "func f() {\n\tswitch {\n\tdefault:\n\t\tbreak\n\t}\n}\nfor {\n\tf()\n}\n", "func f() {\n\tcontinue\n}\n", "x := 1\nx[0] = 1\n", "x := 1\nx()\n", "print(print(1))\n", "x := print(1)\n", "func f() {\n\tfunc g() {\n\t}\n}\n", "func f() {\n}\nf = 1\n", "f()\nfunc f() {\n}\n", "\x00", "\xff\xfe", "\"", "`", "/*", "//", "'", "\\",
 	} {
 		out = append(out, c13Input{key: fmt.Sprintf("nearmiss/syntax/%d", i), files: map[string]string{"main.tsh": s}})
 	}
